@@ -380,20 +380,23 @@ def check_two_carts(seed_a, seed_b, names, case):
     return carts
 
 
+TWO_CART_NAMES = (('a.p8', 'a_fmt.p8'), ('a_fmt.p8', 'a.p8'), ('x.p8', 'y.p8'), ('cart.p8', 'cart_fmt.p8'))
+
+
 def part_two_carts(ctx):
     def body(v):
-        sa, sb, k = v
-        names = (('a.p8', 'a_fmt.p8'), ('a_fmt.p8', 'a.p8'), ('x.p8', 'y.p8'), ('cart.p8', 'cart_fmt.p8'))[k]
-        case = {'two': True, 'seed_a': bytes(sa), 'seed_b': bytes(sb), 'names': list(names)}
-        carts = check_two_carts(sa, sb, names, case)
-        if carts is None:
-            ctx.stats.exclude('section_like_or_include_line')
-            return
-        collide = names[1] == names[0][:-3] + '_fmt.p8'
-        ctx.stats.case(bytes(sa) + bytes(sb) + bytes((k,)), collide, {'names': list(names)} if k == 0 else None,
-                       ['two_carts_in_one_call'] + (['second_cart_is_named_like_first_output'] if collide else []))
-    ctx.hyp('two_carts', st.tuples(st.binary(min_size=300, max_size=300), st.binary(min_size=300, max_size=300),
-                                   st.integers(0, 3)), body, max_examples=10 if ctx.quick else 60)
+        sa, sb = v
+        for k, names in enumerate(TWO_CART_NAMES):          # (every naming for every pair of carts)
+            case = {'two': True, 'seed_a': bytes(sa), 'seed_b': bytes(sb), 'names': list(names)}
+            carts = check_two_carts(sa, sb, names, case)
+            if carts is None:
+                ctx.stats.exclude('section_like_or_include_line')
+                return
+            collide = names[1] == names[0][:-3] + '_fmt.p8'
+            ctx.stats.case(bytes(sa) + bytes(sb) + bytes((k,)), collide, {'names': list(names)} if k == 0 else None,
+                           ['two_carts_in_one_call'] + (['second_cart_is_named_like_first_output'] if collide else []))
+    ctx.hyp('two_carts', st.tuples(st.binary(min_size=300, max_size=300), st.binary(min_size=300, max_size=300)),
+            body, max_examples=4 if ctx.quick else 30)
 
 
 def parts(tier):
